@@ -64,7 +64,34 @@ func (r *engRun) addSourceDir(pkg string) int {
 	for i := 0; i < 2; i++ {
 		r.dirPut(p.Sources[id], fmt.Sprintf("f%d.c", i))
 	}
+	if r.rng.Intn(2) == 0 {
+		r.dirLink(p.Sources[id], "l0.c", true)
+	}
 	return id
+}
+
+// dirLink makes (or re-points, or edits the file behind) a symbolic link inside a source directory: the entry's content
+// is what the link leads to, a file outside the directory. fresh: point the link at a new file; otherwise rewrite the
+// file it points at.
+func (r *engRun) dirLink(s *engSource, name string, fresh bool) {
+	lit := r.p.nextLit
+	r.p.nextLit++
+	pool := filepath.Join(r.root, ".linkpool")
+	os.MkdirAll(pool, 0755)
+	link := filepath.Join(r.root, r.p.Paths[s.Path], name)
+	if cur, err := os.Readlink(link); err == nil && !fresh {
+		os.WriteFile(cur, []byte(fmt.Sprintf("lit-%d\n", lit)), 0644)
+	} else {
+		target := filepath.Join(pool, fmt.Sprintf("s%d-%d.txt", s.ID, lit))
+		os.WriteFile(target, []byte(fmt.Sprintf("lit-%d\n", lit)), 0644)
+		os.Remove(link)
+		os.Symlink(target, link)
+	}
+	if s.Links == nil {
+		s.Links = map[string]bool{}
+	}
+	s.Links[name] = true
+	s.Dir[name] = lit
 }
 
 func (r *engRun) dirPut(s *engSource, name string) {
@@ -288,10 +315,12 @@ func (r *engRun) eventsByLabel(rep *engReport) (map[string][]string, []engEvent)
 	inRun := false
 	for _, e := range rep.Events {
 		if e.Kind == "LoadDone" {
+			// the events of the (last) run follow the last load of the process (a Reload loads again)
 			inRun = true
+			by, run = map[string][]string{}, nil
 			continue
 		}
-		if !inRun {
+		if !inRun || strings.HasPrefix(e.Kind, "Module") {
 			continue
 		}
 		run = append(run, e)
